@@ -33,6 +33,8 @@ import time
 
 import common
 from common import Failure, cnat, cbool, clist, cN
+
+EXTRA_PROPS = ['C19C01']  # composition with the executor and world models (Props/C19C01.v): an expiry is HARD_ERROR at that step in every mode, cleanup runs once, the sandbox is removed
 import impl  # noqa: F401  (sets sys.path)
 
 PROP = 'C19'
